@@ -56,6 +56,11 @@ def parse_url(url: str) -> ParsedURL:
     if not url:
         raise ValueError("URL cannot be empty")
 
+    # urllib.parse silently deletes TAB, CR and LF anywhere in a URL, so such a
+    # string would be parsed as something the sender never wrote
+    if "\t" in url or "\r" in url or "\n" in url:
+        raise ValueError("Invalid URL: TAB, CR and LF characters are not allowed")
+
     # Parse the URL
     parsed = urlparse(url)
 
